@@ -97,12 +97,14 @@ def build_entry(eng, contract, fn_node, st, is_region):
     for o in objs:
         for inv in eng.class_invariant(st, o):
             st.assume(inv)
+    eng.spec_mode += 1
     for g, init in contract.get("ghost", {}).items():
         st.ghost[g] = eng.eval(ast.parse(init, mode="eval").body, st)
+    eng.spec_mode -= 1
     # spec function axioms
     for name, spec in contract.get("spec_funcs", {}).items():
         for ax in spec.get("axioms", []):
-            eng.axioms.append(eng.eval_clause(ax, st))
+            eng.axioms.append(eng.eval_clause(ax, st, old=st))
     for r in contract.get("requires", []):
         st.assume(eng.eval_clause(r, st))
     return objs
@@ -126,23 +128,42 @@ def run_target(contract, registry, classes):
         is_region = "region" in contract
         stmts = X.find_region(fn, contract["region"]) if is_region else fn.body
         consts = X.class_constants(ex.cls_node)
+        chain = contract.get("consts_from")
+        if chain:
+            # class constants resolved along the (declared) inheritance chain, read from the current source;
+            # later entries override earlier ones (base class first, the concrete class last)
+            import ast as _ast
+            merged = {}
+            for ref in ([chain] if isinstance(chain, str) else chain):
+                rel, cls_name = ref.split("::")
+                _, m2 = X.parse_file(rel)
+                for node in m2.body:
+                    if isinstance(node, _ast.ClassDef) and node.name == cls_name:
+                        merged.update(X.class_constants(node))
+                        break
+                else:
+                    raise LookupError(f"anchor not found: class {ref}")
+            consts = {**consts, **merged} if isinstance(chain, str) else {**merged}
         contract = dict(contract)
         if ex.cls_node is not None:
-            contract.setdefault("self_class", ex.cls_node.name)
-            if ex.cls_node.name in classes:
+            self_kind = contract["params"].get("self", "")
+            own = self_kind[4:] if self_kind.startswith("obj:") else ex.cls_node.name
+            contract.setdefault("self_class", own)
+            if own in classes:
                 classes = dict(classes)
-                cm = dict(classes[ex.cls_node.name])
+                cm = dict(classes[own])
                 cm["consts"] = {**cm.get("consts", {}), **consts}
-                classes[ex.cls_node.name] = cm
+                classes[own] = cm
         eng = Engine(contract, registry, classes, fn, consts)
         st = State()
         objs = build_entry(eng, contract, fn, st, is_region)
         entry = st.fork()
         # ---- vacuity guards
-        res.cover = str(smt.is_sat(eng.axioms + st.pc))
+        # canary: `assert False` right after the preconditions must NOT be provable
+        res.cover = str(smt.is_sat(eng.axioms + st.pc, 3000))
         if res.cover == "unsat":
             res.status = "error"
-            res.detail = "requires + invariant are contradictory (cover failed)"
+            res.detail = "requires + invariant are contradictory (canary `False` was discharged at entry)"
             return res
         exits = 0
         self_obj = st.env.get("self") if isinstance(st.env.get("self"), VObj) else None
@@ -197,8 +218,14 @@ def run_target(contract, registry, classes):
             res.status = "error"
             res.detail = "no feasible path through the target"
             return res
-        # canary: an `assert False` right after the preconditions must be refutable
-        res.canary = "refutable" if res.cover == "sat" else res.cover
+        res.canary = "entry:" + res.cover
+        for where, hyps in eng.canaries:
+            r = str(smt.is_sat(hyps, 2000))
+            res.canary += f" {where}:{r}"
+            if r == "unsat":
+                res.status = "error"
+                res.detail = f"loop invariants/assumptions are contradictory at {where} (canary `False` was discharged)"
+                return res
         # discharge
         for ob in eng.obligations:
             smt.discharge(ob)
